@@ -110,8 +110,11 @@ def _bool_eval(e, atoms, val):
 
 def chain_shape(ctx, f):
     """is_sequential's structural test, as a boolean formula per compartment position i over the atoms
-    A = 'column i of the reduced K has exactly one entry', B = 'K[i, i-1] != 0', Z = 'i == 0'.
-    The conjunction of all quantified conditions must be equivalent to  A and (Z or B)."""
+    A = 'column i of the reduced K has exactly one entry', B = 'K[i, i-1] != 0', Z = 'i == 0',
+    L = 'i is the last position', D = 'K[i, i] != 0'.
+    The conjunction of all quantified conditions must be equivalent to  A and (Z or B) and (not L or D):
+    every compartment but the last hands its population to the next one (its single entry is the
+    sub-diagonal one) and the last one decays (its single entry is the diagonal one, not a back transfer)."""
     fl = lib.flow(f, ctx.repo)
     mats = [d for d in fl.defs_of("matrix") if d.kind == "assign"]
     mvar = None
@@ -132,6 +135,12 @@ def chain_shape(ctx, f):
             return quantified(e.operand, not positive, node)
         if isinstance(e, ast.BoolOp) and ((isinstance(e.op, ast.And) and positive) or (isinstance(e.op, ast.Or) and not positive)):
             return all(quantified(x, positive, node) for x in e.values)
+        if isinstance(e, ast.Compare) and len(e.ops) == 1 and norm(e.left) in (f"{mvar}[-1, -1]", f"{mvar}[-1][-1]") \
+                and isinstance(e.comparators[0], ast.Constant) and e.comparators[0].value == 0 and isinstance(e.ops[0], (ast.Eq, ast.NotEq)):
+            if isinstance(e.ops[0], ast.NotEq) != positive:
+                return False
+            plain_last.append(e)
+            return True
         if isinstance(e, ast.Call) and isinstance(e.func, ast.Name) and e.func.id in ("all", "any") and len(e.args) == 1 \
                 and isinstance(e.args[0], (ast.GeneratorExp, ast.ListComp)) and len(e.args[0].generators) == 1 and not e.args[0].generators[0].ifs:
             g = e.args[0]
@@ -144,6 +153,12 @@ def chain_shape(ctx, f):
             return True
         return False
 
+    last_forms = {f"{mvar}.shape[1] - 1", f"{mvar}.shape[0] - 1", f"len({mvar}) - 1", f"len({comp_p}) - 1"}
+    for v in {n.id for n in ast.walk(f.node) if isinstance(n, ast.Name)}:
+        ds = [d for d in fl.defs_of(v) if d.kind == "assign" and d.value is not None]
+        if len(ds) == 1 and norm(ds[0].value) in last_forms:
+            last_forms = last_forms | {v}
+    plain_last = []  # conjuncts outside the quantifier: K[-1, -1] != 0
     where = None
     for n in lib.nodes(f, ast.If):
         if n.body and isinstance(n.body[-1], ast.Return) and isinstance(n.body[-1].value, ast.Constant) and n.body[-1].value.value is False \
@@ -161,6 +176,7 @@ def chain_shape(ctx, f):
         count_forms = {f"np.nonzero({mvar}[:, {ivar}])[0].size", f"np.count_nonzero({mvar}[:, {ivar}])", f"len(np.nonzero({mvar}[:, {ivar}])[0])",
                        f"np.nonzero({mvar}[:, {ivar}])[0].shape[0]"}
         sub_forms = {f"{mvar}[{ivar}, {ivar} - 1]", f"{mvar}[{ivar}][{ivar} - 1]"}
+        diag_forms = {f"{mvar}[{ivar}, {ivar}]", f"{mvar}[{ivar}][{ivar}]"}
 
         def atoms(e):
             if not (isinstance(e, ast.Compare) and len(e.ops) == 1):
@@ -171,6 +187,10 @@ def chain_shape(ctx, f):
                 return "A", isinstance(op, ast.Eq)
             if l in sub_forms and rv == 0 and isinstance(op, (ast.Eq, ast.NotEq)):
                 return "B", isinstance(op, ast.NotEq)
+            if l in diag_forms and rv == 0 and isinstance(op, (ast.Eq, ast.NotEq)):
+                return "D", isinstance(op, ast.NotEq)
+            if l == ivar and norm(r) in last_forms and isinstance(op, (ast.Eq, ast.NotEq)):
+                return "L", isinstance(op, ast.Eq)
             if l == ivar and rv == 0 and isinstance(op, (ast.Eq, ast.NotEq)):
                 return "Z", isinstance(op, ast.Eq)
             if l == ivar and rv == 0 and isinstance(op, ast.Gt):
@@ -182,18 +202,19 @@ def chain_shape(ctx, f):
 
     import itertools
     try:
-        for a_, b_, z_ in itertools.product((False, True), repeat=3):
-            val = {"A": a_, "B": b_, "Z": z_}
-            got = True
+        for a_, b_, z_, l_, d_ in itertools.product((False, True), repeat=5):
+            val = {"A": a_, "B": b_, "Z": z_, "L": l_, "D": d_}
+            got = (not l_ or d_) if plain_last else True
             for body, is_all, ivar, starts1, _ in conjuncts:
                 v = _bool_eval(body, atoms_for(ivar), val)
                 v = v if is_all else not v
                 if starts1:
                     v = v or z_  # position 0 is not quantified over
                 got = got and v
-            want = a_ and (z_ or b_)
+            want = a_ and (z_ or b_) and (not l_ or d_)
             if got != want:
-                return False, f"for A={a_} (one entry in column i), B={b_} (K[i,i-1] != 0), Z={z_} (i == 0) the test accepts={got}, required={want}", where
+                return False, (f"for A={a_} (one entry in column i), B={b_} (K[i,i-1] != 0), Z={z_} (i == 0), L={l_} (i is last), "
+                               f"D={d_} (K[i,i] != 0) the test accepts={got}, required={want}"), where
     except ValueError as e:
         return False, f"condition `{e}` is neither a column count, the sub-diagonal entry K[i, i-1] nor a test of the position", where
     if not conjuncts:
@@ -224,8 +245,8 @@ def r2(ctx, rule: str = "C04-R2") -> None:
     ctx.ob(rule, "is_sequential/total-population-one", sums, f, early[0] if early else f.node, "the total population must be 1")
     ok, why, where = chain_shape(ctx, f)
     ctx.ob(rule, "is_sequential/chain-shape", ok, f, where or f.node,
-           "unibranched *in declaration order*: every column of the reduced K has exactly one entry and compartment i (i >= 1) is fed by "
-           "compartment i-1; the closed form and `rates` read the chain off the compartment order, so a chain declared out of order "
+           "unibranched *in declaration order*: every column of the reduced K has exactly one entry, compartment i (i >= 1) is fed by "
+           "compartment i-1 and the last compartment's entry is its own decay (not a transfer back into the chain); the closed form and `rates` read the chain off the compartment order, so a chain declared out of order "
            "must take the general path", [why] if why else None, construct=lib.short(where, 140) if where is not None else "def is_sequential")
     am = ctx.fn(KM, "KMatrix.a_matrix")
     rets = lib.nodes(am, ast.Return)
@@ -241,7 +262,7 @@ def r2(ctx, rule: str = "C04-R2") -> None:
     ctx.ob(rule, "rates/same-guard", ok, rt, g or rt.node, "the rates are ordered like the A-matrix: selected by the same guard with the same arguments")
 
 
-def r3(ctx) -> None:
+def r3(ctx, rule: str = "C04-R3") -> None:
     repo = ctx.repo
     f = ctx.fn(DUT, "calculate_matrix")
     fl = lib.flow(f, repo)
@@ -249,37 +270,37 @@ def r3(ctx) -> None:
     defs = {d.var: norm(d.value) for v in ("compartments", "initial_concentration", "k_matrix", "rates") for d in fl.defs_of(v) if d.kind == "assign"}
     ok = defs.get("compartments") == f"{mp}.get_compartments({dp})" and defs.get("initial_concentration") == f"{mp}.get_initial_concentration({dp})" and \
         defs.get("k_matrix") == f"{mp}.get_k_matrix()" and defs.get("rates") == "k_matrix.rates(compartments, initial_concentration)"
-    ctx.ob("C04-R3", "calculate_matrix/one-source", ok, f, f.node, "compartments, initial concentration, K-matrix and rates of one megacomplex and dataset",
+    ctx.ob(rule, "calculate_matrix/one-source", ok, f, f.node, "compartments, initial concentration, K-matrix and rates of one megacomplex and dataset",
            construct="; ".join(f"{k} = {v}" for k, v in defs.items()))
     rets = lib.nodes(f, ast.Return)
-    ctx.ob("C04-R3", "calculate_matrix/labels-are-compartments", len(rets) == 1 and norm(rets[0].value) == "(compartments, matrix)" and
+    ctx.ob(rule, "calculate_matrix/labels-are-compartments", len(rets) == 1 and norm(rets[0].value) == "(compartments, matrix)" and
            all(d.kind == "assign" for d in fl.reaching("compartments", rets[0])) and len(fl.reaching("compartments", rets[0])) == 1, f, rets[0] if rets else f.node,
            "the clp labels returned are exactly the compartment order the rates and the A-matrix were computed for")
     mm = [d for d in fl.defs_of("matrix") if d.kind == "assign" and isinstance(d.value, ast.BinOp) and isinstance(d.value.op, ast.MatMult)]
     ok = len(mm) == 1 and norm(mm[0].value.left) == "matrix" and norm(mm[0].value.right) == f"{mp}.get_a_matrix({dp})"
-    ctx.ob("C04-R5", "calculate_matrix/concentration-is-exponentials-times-A", ok, f, mm[0].stmt if mm else f.node,
+    ctx.ob("C04-R5" if rule == "C04-R3" else rule, "calculate_matrix/concentration-is-exponentials-times-A", ok, f, mm[0].stmt if mm else f.node,
            "compartment profiles = (exponential columns, one per rate) @ A-matrix")
     shp = [d for d in fl.defs_of("matrix_shape") if d.kind == "assign"]
-    ctx.ob("C04-R3", "calculate_matrix/one-column-per-rate", bool(shp) and norm(shp[0].value).count("rates.size") == 2, f, shp[0].stmt if shp else f.node,
+    ctx.ob(rule, "calculate_matrix/one-column-per-rate", bool(shp) and norm(shp[0].value).count("rates.size") == 2, f, shp[0].stmt if shp else f.node,
            "the exponential matrix has one column per rate")
     for rel, cls in ((DM, "DecayMegacomplex"),):
         ga = ctx.fn(rel, f"{cls}.get_a_matrix")
         rets = lib.nodes(ga, ast.Return)
         ok = len(rets) == 1 and norm(rets[0].value).replace(" ", "").replace("\n", "") == \
             "self.get_k_matrix().a_matrix(self.get_compartments(dataset_model),self.get_initial_concentration(dataset_model))"
-        ctx.ob("C04-R3", f"{cls}.get_a_matrix/same-order", ok, ga, rets[0] if rets else ga.node,
+        ctx.ob(rule, f"{cls}.get_a_matrix/same-order", ok, ga, rets[0] if rets else ga.node,
                "the A-matrix is computed for get_compartments(dataset_model) and the matching initial concentration")
         gi = ctx.fn(rel, f"{cls}.get_initial_concentration")
         txt = norm(gi.node)
         ok = "compartments = self.get_compartments(dataset_model)" in txt and "compartment in compartments for compartment in dataset_model.initial_concentration.compartments" in txt \
             and "return initial_concentration[idx]" in txt
-        ctx.ob("C04-R3", f"{cls}.get_initial_concentration/filtered-like-compartments", ok, gi, gi.node,
+        ctx.ob(rule, f"{cls}.get_initial_concentration/filtered-like-compartments", ok, gi, gi.node,
                "the initial concentration is restricted to the compartments of this megacomplex, in the order of the initial concentration item",
                construct="idx = [c in compartments for c in initial_concentration.compartments]; return j[idx]")
         gc = ctx.fn(rel, f"{cls}.get_compartments")
         txt = norm(gc.node)
         ok = "for compartment in dataset_model.initial_concentration.compartments if compartment in self.get_k_matrix().involved_compartments()" in txt
-        ctx.ob("C04-R3", f"{cls}.get_compartments/order-of-initial-concentration", ok, gc, gc.node,
+        ctx.ob(rule, f"{cls}.get_compartments/order-of-initial-concentration", ok, gc, gc.node,
                "compartment order = order of the initial concentration item, filtered by the K-matrix",
                construct="[c for c in initial_concentration.compartments if c in k_matrix.involved_compartments()]")
     # several K-matrices of one megacomplex are folded into one: the accumulator must be carried
@@ -299,21 +320,21 @@ def r3(ctx) -> None:
             inits = [s_ for t_, s_ in lib.stores(loop) if norm(t_) == acc and isinstance(s_, ast.Assign) and norm(s_.value) == lv]
             okf = okf and len(inits) == 1
             trace = [f"fold: {lib.short(st_, 80)}", f"accumulator: {acc}"]
-    ctx.ob("C04-R3", "DecayMegacomplex.get_k_matrix/fold-carries-accumulator", okf, gk, loop or gk.node,
+    ctx.ob(rule, "DecayMegacomplex.get_k_matrix/fold-carries-accumulator", okf, gk, loop or gk.node,
            "all K-matrices of the megacomplex are combined: acc = first; acc = acc.combine(next) for each further one (a fold that "
            "restarts from the first matrix loses every matrix but the first and the last)", trace)
     cb = ctx.fn(KM, "KMatrix.combine")
     txt = norm(cb.node)
     okc = "combined_matrix = {entry: self.matrix[entry] for entry in self.matrix}" in txt and "for entry in k_matrix.matrix" in txt and \
         "combined_matrix[entry] = k_matrix.matrix[entry]" in txt and "matrix=combined_matrix" in txt
-    ctx.ob("C04-R3", "KMatrix.combine/union-of-entries", okc, cb, cb.node, "the combined K-matrix holds the entries of both (later ones override)",
+    ctx.ob(rule, "KMatrix.combine/union-of-entries", okc, cb, cb.node, "the combined K-matrix holds the entries of both (later ones override)",
            construct="combined = dict(self.matrix); combined.update(other.matrix)")
     rd = ctx.fn(DUT, "retrieve_decay_associated_data")
     flr = lib.flow(rd, repo)
     defs = {d.var: norm(d.value) for v in ("species", "matrix", "matrix_reduced", "rates", "a_matrix", "lifetimes", "das") for d in flr.defs_of(v) if d.kind == "assign"}
     ok = defs.get("species") == "megacomplex.get_compartments(dataset_model)" and defs.get("matrix") == "k_matrix.full(species)" and \
         defs.get("matrix_reduced") == "k_matrix.reduced(species)"
-    ctx.ob("C04-R3", "retrieve_decay_associated_data/one-order", ok, rd, rd.node, "reported K-matrices, rates and A-matrix use the same compartment order", construct=str({k: defs.get(k) for k in ("species", "matrix", "matrix_reduced")}))
+    ctx.ob(rule, "retrieve_decay_associated_data/one-order", ok, rd, rd.node, "reported K-matrices, rates and A-matrix use the same compartment order", construct=str({k: defs.get(k) for k in ("species", "matrix", "matrix_reduced")}))
 
 
 def r4(ctx) -> None:
